@@ -152,7 +152,7 @@ class ParserTotal(BoundedCheck):
             if got != want:
                 import re as _re
                 sig = 'c13.statement-dropped'
-                lhs_without_term = any('=' in st and not _re.search(r'[A-Za-z_]', _re.sub(r'`[^`]*`|\{[^}]*\}|<[^>]*>|[A-Za-z_][\w.]*\s*(?=\()', '', st.split('=', 1)[0])) for st in s.split('\n'))
+                lhs_without_term = any('=' in st and not _re.search(r'[A-Za-z_]', _re.sub(r'`.+?`|\{[^}]*\}|<[^>]*>|[A-Za-z_][\w.]*\s*(?=\()', '', st.split('=', 1)[0])) for st in s.split('\n'))
                 if want > got and lhs_without_term:
                     sig += ':no-term-on-left-hand-side'
                 elif '```' in s and want > got:
